@@ -15,7 +15,7 @@ PROPS = {
         level="proof",
         min_obligations=60,
         replay_family="c14",
-        bounded=[dict(family="c14", what="to_value of derived Serialize impls == documented shape; from_value of the alternative encodings", bound="23 typed values + 6 alternative encodings")],
+        bounded=[dict(family="c14", what="to_value of derived Serialize impls == documented shape; from_value of the alternative encodings", bound="23 typed values + 8 alternative encodings")],
         explanation="serde-lexpr/src/value/ser.rs is extracted from /repo and every Serializer method and every collector (SerializeList, SerializeVector, "
                     "SerializeTupleVariant, SerializeMap, SerializeStruct, SerializeStructVariant: serialize_element/field/key/value/entry and end) is verified to build exactly "
                     "the documented shape as a function of the children's S-expressions: seq/set -> mk_list(items, ()), tuple/tuple struct -> Vector(items), map -> list of "
@@ -39,7 +39,7 @@ PROPS = {
         min_obligations=50,
         replay_family="c18",
         bounded=[dict(family="c18", what="from_value::<T>(v) never panics, errors are Data, accepted values re-serialize and read back equal",
-                      bound="117 values (atoms, lists, pairs, vectors, alists, improper lists, variant shapes) x 18 target types")],
+                      bound="135 values (atoms, lists, pairs, vectors, alists, improper lists, variant shapes) x 21 target types")],
         explanation="PROVED (Verus, unbounded in the value): serde-lexpr/src/value/de.rs is extracted from /repo: all 30 deserialize_* methods (the 10 numeric ones per macro "
                     "instantiation), invalid_value, from_value, ConsAccess / ListAccess / VecAccess / MapAccess / VariantAccess / UnitVariantAccess are free of panics - index in "
                     "bounds, idx counter cannot overflow, and the single expect() (MapAccess::next_value_seed) is dead under serde's documented MapAccess protocol (ghost "
@@ -123,7 +123,9 @@ PROPS = {
                     "ANY number n <= len of bytes (all short-write schedules at once) and `write_all` delivers everything or fails having delivered a prefix. "
                     "Every Formatter method (default bodies verified once per implementor, DefaultFormatter at the default option set, CustomizedFormatter for "
                     "all option sets symbolically), the number visitor, the byte-vector element closures, the char/string escape writers carry "
-                    "emits(r, sunk_before, sunk_after, txt_X(options, arg)): Ok => exactly the text, Err => a prefix of it.",
+                    "emits(r, sunk_before, sunk_after, txt_X(options, arg)): Ok => exactly the text, Err => a prefix of it. The entry points to_writer / "
+                    "to_writer_custom (at the instantiation W = &mut V: a ghost `fut` token on the sink model carries `the writer still borrows the same sink` "
+                    "through every emitter), to_vec(_custom) (the Vec holds exactly the text) and to_string(_custom) are under the same contract.",
         assumptions=[
             "std::io::Write contract as documented (sink model inc/sink.vrs); itoa/ryu output are uninterpreted texts dec_int / ryu_text",
             "write!(w, \"LIT{:x}\", n) is replaced by an assumed all-or-prefix emitter of LIT ++ lower_hex(n) (rule R8)",
@@ -157,6 +159,10 @@ PROPS = {
         level="proof",
         min_obligations=40,
         replay_family="c06",
+        bounded=[dict(family="c06", what="same bytes through &str, &[u8] and io::Read (chunk sizes 1/2/3/64, Interrupted every 2nd/3rd call) give the same values or the same "
+                                         "error category and kind - covers the string / character scanners whose content equality across sources is not proved; a hard read error "
+                                         "injected at every offset yields an I/O error or the already determined outcome",
+                      bound="39 texts (symbols, strings with escapes, chars, numbers, comments, nested and truncated forms) x 2 option sets x 5 read schedules; error injection at every offset x 2 schedules")],
         explanation="The three sources (SliceRead, StrRead, IoRead over LineColIterator) are extracted from /repo and each verified against ONE shared "
                     "contract (trait ReadBase/Read restated with specs): next/peek/discard are exact functions of the unread bytes `rest()`, with the "
                     "protocol `discard only after a successful peek` (ghost `peeked`) enforced at all 40 discard sites; the three symbol scanners all satisfy "
@@ -244,6 +250,9 @@ PROPS = {
         level="proof",
         min_obligations=10,
         replay_family="c12",
+        bounded=[dict(family="c12", what="concatenation of printed values of every kind with every trivia string parses back to exactly those values (value_iter and datum_iter); "
+                                         "the four iteration styles agree and terminate on malformed inputs",
+                      bound="12 values pairwise (1/3 sample) x 9 trivia strings x 4 placements + 13 malformed inputs")],
         explanation="parse_whitespace is verified equal to the declarative trivia skipper skip_trivia (space, tab, CR, LF, FF and ;-comments incl. a "
                     "final comment without newline); the symbol scanners are verified against sym_run/sym_term, where sym_term is REQUIRED by the spec to "
                     "contain every trivia byte and every delimiter the printer can emit after a token, so inserting trivia at a token boundary cannot "
